@@ -628,6 +628,8 @@ func main() {
 	}
 	windowCases(o)
 	handoverCases(o)
+	refreshGateCases(o)
+	refreshGateSession(o)
 	scriptedSessions(o)
 	for i := 0; i < 250*o.Scale; i++ {
 		g.randomSession(o)
